@@ -19,8 +19,42 @@ class StepLog(object):
             self.steps.append(snap.step)
 
 
+def gen_specialist(rng):
+    """Feasible class 1 (FS/SS only, every task has an eligible worker who is eventually present): one specialist
+    who can do everything and is individually absent now and then, helpers for some of the tasks (so that a task's
+    last unit of work is often done by a helper while the specialist is away), and tasks that only the specialist
+    can do."""
+    n = rng.randint(3, 6)
+    tasks = []
+    for k in range(n):
+        deps = []
+        for j in range(k):
+            if rng.random() < (0.5 if j == k - 1 else 0.15):
+                deps.append([j, rng.choice([G.FS, G.FS, G.SS])])
+        tasks.append(G._simple_task(k, rng.choice([1, 2, 2, 3, 4]), deps))
+    spec_w = G._worker(0, 0, {"t%d" % k: rng.choice([1.0, 1.0, 2.0]) for k in range(n)}, cost=1.0)
+    spec_w["absence"] = sorted(rng.sample(range(0, 12), rng.randint(1, 5)))
+    workers = [spec_w]
+    only_specialist = set(rng.sample(range(n), rng.randint(1, max(1, n // 2))))
+    for j in range(rng.randint(1, 3)):
+        sk = {"t%d" % k: rng.choice([0.5, 1.0, 1.0, 2.0]) for k in range(n) if k not in only_specialist and rng.random() < 0.7}
+        w = G._worker(0, j + 1, sk, cost=1.0)
+        if rng.random() < 0.3:
+            w["absence"] = sorted(rng.sample(range(0, 12), rng.randint(1, 3)))
+        workers.append(w)
+    teams = [dict(name="team0", id="TM0", targets=list(range(n)), workers=workers)]
+    spec = dict(tasks=tasks, comps=[], wps=[], teams=teams,
+                sim=dict(rule=rng.randrange(9), absence=[], auto_flag=False, max_time=0), feasible_class=1)
+    if rng.random() < 0.3:
+        spec["sim"]["absence"] = sorted(rng.sample(range(0, 12), rng.randint(1, 3)))
+    spec["sim"]["max_time"] = G.feasible_bound(spec)
+    return spec
+
+
 def make_case(prop, seed, i, tier):
     rng = rng_for(prop, seed, i)
+    if i >= len(pairs()) and i % 10 == 7:
+        return dict(prop=prop, i=i, kind="feasible", source="feasible-specialist", spec=gen_specialist(rng))
     if i < len(pairs()):
         spec = copy.deepcopy(pairs()[i])
         sh = spec["shape"]
